@@ -339,6 +339,7 @@ def observe_pack(binary, packs, structured, macros=bl.DEFAULT_MACROS, lock=10000
                 "unusable": [(ln, col) for (f, ln, col) in r1.unusable_reports() if f == p],
                 "pure": ok, "tokens": toks, "after": a,
                 "missing2": [(ln, col) for (f, ln, col) in r3.missing_reports() if f == p],
+                "unusable2": [(ln, col) for (f, ln, col) in r3.unusable_reports() if f == p],
                 "unchanged2": after2.get(pk.name) == a,
             }
         runs = {"check1": r1, "edit1": r2, "check2": r3, "edit2": r4}
@@ -444,6 +445,9 @@ def judge_pack(pk, obs, structured):
     if obs["missing2"]:
         problems.append((None, "after the edit a second --check still reports %d missing reference(s) at %s" % (
             len(obs["missing2"]), obs["missing2"][:5]), None))
+    if len(obs.get("unusable2", [])) > len(obs["unusable"]):
+        problems.append((None, "after the edit --check reports %d unusable reference(s), %d before: a reference written by the edit "
+                               "is not read back as one" % (len(obs["unusable2"]), len(obs["unusable"])), None))
     if not obs["unchanged2"]:
         problems.append((None, "a second edit run changed the file again", None))
     return problems, per
@@ -498,7 +502,10 @@ def render_directive_case(pk, case, uid0):
         elif kind == "code":
             pk.filler("    let _z%d = 0;\n" % uid)
         elif kind == "strdir":
-            pk.filler(('    let _s%d = "the docs say /* breadlog:ignore */";\n', '    let _s%d = "use /* breadlog:no-kvp */ here";\n')[uid % 2] % uid)
+            # ... also behind a literal that ends in an escaped backslash, or one with an escaped quote
+            pk.filler(('    let _s%d = "the docs say /* breadlog:ignore */";\n', '    let _s%d = "use /* breadlog:no-kvp */ here";\n',
+                       '    let _b%d = "C:\\\\"; let _t = "see /* breadlog:ignore */";\n',
+                       '    let _q%d = "a \\" quote"; let _t = "see /* breadlog:no-kvp */";\n')[uid % 4] % uid)
         elif kind == "attr":
             pk.filler(("    #[cfg(debug_assertions)]\n", "    #[allow(unused)]\n")[uid % 2])
         elif kind == "cmtextra":
